@@ -126,19 +126,24 @@ THR = [None, 1.0, 2.0, 0.5]
 
 
 def enum_chunks(tier):
-    top = 4 if tier == "quick" else 5
+    top = 4 if tier == "quick" else 6
     out = []
     for n in range(1, top + 1):
         for method in ("average", "differential"):
             for first in range(len(ALPHA)):
-                out.append({"n": n, "method": method, "first": first})
+                if n >= 6:
+                    for second in range(len(ALPHA)):
+                        out.append({"n": n, "method": method, "first": first, "second": second})
+                else:
+                    out.append({"n": n, "method": method, "first": first})
     return out
 
 
 def enum_cases(chunk):
     n, method, first = chunk["n"], chunk["method"], chunk["first"]
-    for rest in itertools.product(ALPHA, repeat=n - 1):
-        x = [ALPHA[first], *rest]
+    head = [ALPHA[first]] + ([ALPHA[chunk["second"]]] if "second" in chunk else [])
+    for rest in itertools.product(ALPHA, repeat=n - len(head)):
+        x = [*head, *rest]
         for s in THR:
             for f in THR:
                 yield {"x": x, "suspect": s, "fail": f, "method": method}
@@ -150,7 +155,7 @@ SUBS = [
 ]
 ENUMS = [
     Enum("spike_alphabet", enum_chunks, enum_cases, check_spike,
-         describe="all series of length 1..5 (quick: 1..4) over {0,+-1,+-2,missing} x both methods x thresholds "
+         describe="all series of length 1..6 (quick: 1..4) over {0,+-1,+-2,missing} x both methods x thresholds "
                   "{absent,0.5,1,2}^2", tiers=("quick", "thorough")),
 ]
 REQUIRED_CLASSES = ["spike_model:d_on_threshold", "spike_model:fail_lt_suspect", "spike_model:one_threshold_absent",
